@@ -130,7 +130,8 @@ pub fn eval_tree(t: &Tree) -> CVal {
         Tree::Var(n) => var_val(n),
         Tree::Konst(k) => CVal(konst_val(*k)),
         Tree::Un(k, a) => c_un(*k, eval_tree(a)),
-        Tree::Bin(k, a, b) => {
+        Tree::Paren(a) => eval_tree(a),
+        Tree::Bin(k, a, b) | Tree::Call(k, a, b) => {
             let x = eval_tree(a);
             let y = eval_tree(b);
             c_bin(*k, x, y)
